@@ -417,9 +417,18 @@ def classify(finding, case):
     return False
 
 
-def demanded(key, d, amb_members):
-    """does the property state what this frame has to be (under a strict ambient filter)?"""
+# routines whose theorem holds for EVERY ambient filter (Props/C05.v: C05_one_tree, C05_index_filtered, C05_ancestors,
+# C05_depth, C05_preceding, C05_fetch_preceding, C05_full_text): demanded under all ambient filters of the grid.  The
+# others (following axis, last_descendant, bf / df_btt traversers, sorter) are restrictions of the unfiltered sequence
+# only under the guard `up_closed_b D`: demanded under none / default / tags-only.
+UNGUARDED = {1, 2, 3, 4, 5, 6, 7, 8, 9, 10, 11, 12, 13, 15, 16, 18, 19, 22, 25}
+
+
+def demanded(key, d, amb_members, strict=True):
+    """does the property state what this frame has to be under this ambient filter?"""
     node, routine, aux = key
+    if not strict and routine not in UNGUARDED:
+        return False
     if routine in (26, 27):
         return False                          # C08's observers: correspondence only here (theorems in Props/C08Nav.v)
     if routine == 7:
@@ -498,8 +507,7 @@ def check_trees(ctx, cases):
                     terms.append("c_dump_loose_text %s %s [%s]" % (d.cel, ilist(members), "; ".join(ilist(f) for f in fs)))
                 else:
                     terms.append("c_dump %s %s" % (d.cel, args))
-                if strict:                    # the oracle is only compared under the strict ambient filters
-                    terms.append("a_dump %s %s" % (d.itree, args))
+                terms.append("a_dump %s %s" % (d.itree, args))
                 per_amb.append((name, strict, members, real))
             prepared.append((case, d, keep, per_amb))
     vals = ctx.coq_eval("c05", REQ, terms, chunk=24, timeout=900)
@@ -508,9 +516,8 @@ def check_trees(ctx, cases):
         shape = ("chained-text" if "Build_tobj" in d.cel else "plain") + ("/comment-or-pi" if "KComment" in d.cel or
                                                                         "KPI" in d.cel else "")
         for name, strict, members, real in per_amb:
-            cm = vals[p]
-            am = vals[p + 1] if strict else [100, 0, 1, 0]
-            p += 2 if strict else 1
+            cm, am = vals[p], vals[p + 1]
+            p += 2
             case0 = {"xml": case["xml"], "plan": case["plan"], "seed": case["seed"], "ambient": name,
                      "ambient_members": members, "tree": d.tree}
             if cm is None or am is None:
@@ -537,7 +544,7 @@ def check_trees(ctx, cases):
                     # the filters to it, the depth-first ones yield it unconditionally): compare without it
                     r = [0] + [x for x in r[1:] if x != key[0]]
                     want = [0] + [x for x in want[1:] if x != key[0]]
-                if strict and demanded(key, d, members) and want != r:
+                if demanded(key, d, members, strict) and want != r:
                     ctx.fail("%s does not return what the one ordered tree determines" % ROUTINE[key[1]],
                              dict(case0, node=key[0], routine=ROUTINE[key[1]],
                                   passed=PASSED[key[2]][0] if key[1] not in (5, 6) else key[2],
